@@ -230,14 +230,33 @@ def c09_5(ctx):
         mod, fn = rl.get(ctx, spec)
         fo = Folder(ctx.repo, mod.name)
         sets = {}
-        for st in ast.walk(fn):
-            if isinstance(st, ast.If) and isinstance(st.test, ast.Compare) and isinstance(st.test.ops[0], ast.In):
-                v = fo.fold(st.test.comparators[0])
-                if isinstance(v, (tuple, list)) and all(isinstance(x, str) and len(x) == 1 for x in v):
-                    body = ast.unparse(ast.Module(body=st.body, type_ignores=[]))
-                    kind = "p2pkh" if "P2PKHScriptPubKey" in body else ("p2sh" if "P2SHScriptPubKey" in body else None)
+        cfg = cfg_of(fn)
+        disp = []
+        for n in cfg.tests():
+            t = n.ast
+            if isinstance(t, ast.Compare) and len(t.ops) == 1 and isinstance(t.ops[0], (ast.In, ast.NotIn)):
+                v = fo.fold(t.comparators[0])
+                if isinstance(v, (tuple, list, set, frozenset)) and v and all(isinstance(x, str) and len(x) == 1 for x in v):
+                    disp.append((n, set(v), isinstance(t.ops[0], ast.In)))
+        blocked = frozenset(n.id for n, _, _ in disp)
+        for n, v, pos in disp:
+            # what is built on the edge "leading character is in the set" before the next dispatch test
+            start = [b for b, l in cfg.succ[n.id] if l is pos]
+            region = cfg.reach(start, blocked=blocked)
+            txt = " ".join(ast.unparse(cfg.nodes[i].ast) for i in region if cfg.nodes[i].ast is not None)
+            kinds = [k for k, c in (("p2pkh", "P2PKHScriptPubKey("), ("p2sh", "P2SHScriptPubKey(")) if c in txt]
+            if len(kinds) == 1:
+                sets.setdefault(kinds[0], set()).update(v)
+        # table idiom: a module-level dict {leading character: ScriptPubKey class} indexed with the first character
+        for nm in {x.id for x in ast.walk(fn) if isinstance(x, ast.Name)}:
+            r = ctx.repo.resolve_name(mod.name, nm)
+            d = ctx.repo.module(r[0]).constants.get(r[1]) if r else None
+            if isinstance(d, ast.Dict) and d.keys and all(isinstance(k, ast.Constant) and isinstance(k.value, str) and len(k.value) == 1 for k in d.keys):
+                for k, val in zip(d.keys, d.values):
+                    cls = ast.unparse(val)
+                    kind = "p2pkh" if cls == "P2PKHScriptPubKey" else ("p2sh" if cls == "P2SHScriptPubKey" else None)
                     if kind:
-                        sets[kind] = set(v)
+                        sets.setdefault(kind, set()).add(k.value)
         for kind, exp in (("p2pkh", p2pkh_chars), ("p2sh", p2sh_chars)):
             if kind not in sets:
                 out.append(ctx.err(spec, "%s leading-character dispatch not found" % kind, fn, mod))
@@ -272,14 +291,25 @@ def c09_5(ctx):
         ff = Folder(repo, mod.name)
         nets = {}
         cfg = cfg_of(fn)
+        # which network constant is assigned when the version byte is v: follow only the edges consistent with byte == v
+        vtests = []
         for n in cfg.tests():
-            t = n.ast
-            if isinstance(t, ast.Compare) and isinstance(t.ops[0], ast.Eq) and ast.unparse(t.left).endswith("[0]"):
-                v = ff.fold(t.comparators[0])
-                for b, l in cfg.succ[n.id]:
-                    a = cfg.nodes[b].ast
-                    if l is True and isinstance(a, ast.Assign) and isinstance(a.value, ast.Constant):
-                        nets[v] = a.value.value
+            r = rl.rel(n.ast, lambda e: ast.unparse(e).endswith("[0]"), lambda e: isinstance(ff.fold(e), int))
+            if r in ("==", "!="):
+                t = n.ast
+                c = ff.fold(t.comparators[0] if ast.unparse(t.left).endswith("[0]") else t.left)
+                vtests.append((n, r, c))
+        for v in (0x80, 0xEF, 0x00):
+            removed = set()
+            for n, r, c in vtests:
+                truth = (v == c) if r == "==" else (v != c)
+                removed.add((n.id, not truth))
+            live = cfg.reach([cfg.entry], removed=frozenset(removed))
+            if not any(x.id in live for x in cfg.returns()):
+                continue
+            consts = {x.ast.value.value for x in cfg.nodes if x.id in live and x.kind == "stmt" and isinstance(x.ast, ast.Assign)
+                      and isinstance(x.ast.value, ast.Constant) and isinstance(x.ast.value.value, str)}
+            nets[v] = sorted(consts)[0] if len(consts) == 1 else sorted(consts)
         if nets == {0x80: "mainnet", 0xEF: "testnet"}:
             out.append(ctx.ok("%s:PrivateKey.parse" % label, "80 → mainnet, ef → testnet", fn, mod, key="wif-dec"))
         else:
